@@ -51,6 +51,28 @@ impl std::fmt::Display for Frags<'_> {
     }
 }
 
+macro_rules! literal_formats {
+    ($($i:literal => $s:literal),* $(,)?) => {
+        /// Literal-only format strings.  `write!(w, "<literal>")` is the one way to reach
+        /// `fmt::Arguments::as_str() == Some(..)`, so the harness keeps a dictionary of them.
+        pub const LITS: &[&str] = &[$($s),*];
+        pub fn write_lit(w: &mut dyn Write, k: usize) -> io::Result<()> {
+            match k {
+                $($i => write!(w, $s),)*
+                _ => Ok(()),
+            }
+        }
+    };
+}
+literal_formats! {
+    0 => "\x1b[", 1 => "1;32m", 2 => "\x1b", 3 => "[", 4 => "m", 5 => "0m", 6 => "31", 7 => ";",
+    8 => "text ", 9 => "hello", 10 => "\x1b]0;title", 11 => "\x07", 12 => "\x1b\\", 13 => "\u{e9}",
+    14 => "\n", 15 => "\x1b[38;5;", 16 => "196m", 17 => "\x1bP", 18 => "q", 19 => " ", 20 => "a",
+    21 => "\x1b[1m", 22 => "\x1b[0m", 23 => "\u{6f22}\u{5b57}", 24 => "\x1b(", 25 => "B", 26 => "\t",
+    27 => "\x1b[4:", 28 => "3m", 29 => "\x18", 30 => "Status: all good\n", 31 => "\x1b[48;2;1;2;", 32 => "3mX",
+    33 => "\u{1f44d}", 34 => "\x1b_apc", 35 => "\x7f",
+}
+
 /// The bytes an op offers at cursor `c`.
 pub fn offered<'a>(op: &Op, input: &'a [u8], c: usize) -> &'a [u8] {
     let c = c.min(input.len());
@@ -100,6 +122,8 @@ pub enum Applied {
     Vectored,
     WriteAll,
     Fmt,
+    /// `write!` with a literal-only format string
+    FmtLit,
     FmtFail,
     Flush,
 }
@@ -119,6 +143,13 @@ pub fn applied_kind(op: &Op, buf: &[u8]) -> Applied {
         Op::FmtFail(..) => {
             if std::str::from_utf8(buf).is_ok() {
                 Applied::FmtFail
+            } else {
+                Applied::WriteAll
+            }
+        }
+        Op::FmtLit(k) => {
+            if LITS.get(*k).map(|l| l.as_bytes() == buf).unwrap_or(false) {
+                Applied::FmtLit
             } else {
                 Applied::WriteAll
             }
@@ -151,6 +182,10 @@ pub fn apply(sut: &mut dyn Write, op: &Op, buf: &[u8]) -> OpResult {
                 let k = (*k).min(parts.len());
                 write!(sut, "{}", Frags { parts, fail_after: Some(k) }).map(|_| None)
             }
+            Applied::FmtLit => {
+                let Op::FmtLit(k) = op else { unreachable!() };
+                write_lit(sut, *k).map(|_| None)
+            }
             Applied::Flush => sut.flush().map(|_| None),
         }
     });
@@ -177,7 +212,9 @@ pub fn gen_ops(rng: &mut Rng, wl: &Workload, allow_fmt_fail: bool) -> Vec<Op> {
         }
     }
     w[4] = w[4].min(2);
-    let size_mode = rng.below(4);
+    // very large workloads get few, large operations (thresholds such as 1 KiB / 8 KiB / 64 KiB
+    // buffers only show up when a single call carries that much)
+    let size_mode = if n > 4096 { 4 } else { rng.below(4) };
     let mut ops = Vec::new();
     let mut covered = 0usize;
     let mut fail_used = !allow_fmt_fail || !rng.chance(1, 40);
@@ -199,7 +236,8 @@ pub fn gen_ops(rng: &mut Rng, wl: &Workload, allow_fmt_fail: bool) -> Vec<Op> {
                     rng.range(1, 64)
                 }
             }
-            _ => rng.range(1, n.max(1) + 4),
+            3 => rng.range(1, n.max(1) + 4),
+            _ => rng.range(n / 16 + 1, n + 4),
         };
         let op = match rng.weighted(&w) {
             0 => Op::Write(len),
@@ -286,4 +324,32 @@ pub fn gen_faults(rng: &mut Rng, out_len: usize, starts: &[usize], allow_hard: b
     }
     v.sort_by_key(|f| f.at);
     v
+}
+
+/// A workload assembled from the literal dictionary, with the history that writes it: mostly
+/// literal-only `write!`s (cursor stays aligned with the dictionary entries), mixed with
+/// `write_all`, argument-carrying `write!` and a few single `write`s.
+pub fn gen_literal_history(rng: &mut Rng, max_tokens: usize) -> (Vec<u8>, Vec<Op>) {
+    let n = rng.range(1, max_tokens.max(1));
+    let mut bytes = Vec::new();
+    let mut ops = Vec::new();
+    for _ in 0..n {
+        // bias towards sequences split across entries: an introducer followed by its tail
+        let k = match rng.below(8) {
+            0 => *rng.pick(&[0usize, 2, 15, 17, 24, 27, 31, 10]),
+            _ => rng.below(LITS.len()),
+        };
+        let l = LITS[k].len();
+        bytes.extend_from_slice(LITS[k].as_bytes());
+        ops.push(match rng.below(10) {
+            0 => Op::WriteAll(l),
+            1 => Op::Fmt(vec![l]),
+            2 => Op::Write(l),
+            _ => Op::FmtLit(k),
+        });
+        if rng.chance(1, 12) {
+            ops.push(Op::Flush);
+        }
+    }
+    (bytes, ops)
 }
